@@ -87,7 +87,9 @@ func (l *withPrefix) SafeDetails() []string {
 
 func encodeWithPrefix(_ context.Context, err error) (string, []string, proto.Message) {
 	l := err.(*withPrefix)
-	return l.Error(), l.SafeDetails(), &errorspb.StringPayload{Msg: string(l.prefix)}
+	// The message is a prefix: a process that does not know this type prepends it
+	// to the text of the cause (errbase.Prefix message type).
+	return l.prefix.StripMarkers(), l.SafeDetails(), &errorspb.StringPayload{Msg: string(l.prefix)}
 }
 
 func decodeWithPrefix(
